@@ -165,6 +165,11 @@ func Sparse6Decode(s string) (*SparseGraph, error) {
 		i = 8
 	}
 
+	if n == 0 {
+		//There are no vertices so there are no edges and everything which follows is padding.
+		return NewSparse(0, nil), nil
+	}
+
 	g := NewSparse(int(n), nil)
 	v := 0
 	k := 64 - bits.LeadingZeros64(n-1)
